@@ -521,6 +521,10 @@ func (rt *referenceTracker) updateRow(table, uuid string, row ovsdb.Row) (ModelU
 		if err != nil {
 			return ModelUpdates{}, err
 		}
+		// the update below has to be applied on top of the mutated model
+		if mutated := updates.GetModel(table, uuid); mutated != nil {
+			model = mutated
+		}
 	}
 
 	if len(update) > 0 {
